@@ -335,6 +335,18 @@ var bodies = []body{
 	{"option", "", "let o = ?i; acc = o.unwrap_or(0) % 5;", false},
 	{"cast", "", "acc = (i as float) as int % 5;", false},
 	{"lambda-call", "", "let f = fn(x: int) -> int { x + 1 }; acc = f(i) % 5;", false},
+	// a call whose ARGUMENT does not complete (throws and is caught further out, or leaves the loop iteration)
+	{"lambda-call-argument-throws", "fn odd(x: int) -> int { if x % 2 == 1 { throw(\"odd\"); } x }", "let f = fn(x: int) -> int { x + 1 }; try { acc = f(odd(i)) % 5; } catch e { acc += 1; }", false},
+	{"fn-value-call-argument-throws", "fn odd(x: int) -> int { if x % 2 == 1 { throw(\"odd\"); } x }\nfn g(x: int) -> int { x + 1 }", "let f = g; try { acc = f(odd(i)) % 5; } catch e { acc += 1; }", false},
+	{"named-call-argument-throws", "fn odd(x: int) -> int { if x % 2 == 1 { throw(\"odd\"); } x }\nfn g(x: int) -> int { x + 1 }", "try { acc = g(odd(i)) % 5; } catch e { acc += 1; }", false},
+	{"builtin-call-argument-throws", "fn odd(x: int) -> int { if x % 2 == 1 { throw(\"odd\"); } x }", "try { if i < 0 { println(odd(i)); } acc = [1, 2].len() + odd(i); } catch e { acc += 1; }", false},
+	{"member-call-argument-throws", "fn odd(x: int) -> int { if x % 2 == 1 { throw(\"odd\"); } x }", "let l = [1]; try { l.push(odd(i)); } catch e { acc += 1; }", false},
+	{"second-argument-throws", "fn odd(x: int) -> int { if x % 2 == 1 { throw(\"odd\"); } x }\nfn g(a: int, b: int, c: int) -> int { a + b + c }", "try { acc = g(i, odd(i), 3) % 5; } catch e { acc += 1; }", false},
+	{"lambda-call-argument-continues", "", "let f = fn(x: int) -> int { x + 1 }; acc = f({ if i % 2 == 0 { continue; } i }) % 5;", false},
+	{"named-call-argument-continues", "fn g(x: int) -> int { x + 1 }", "acc = g({ if i % 2 == 0 { continue; } i }) % 5;", false},
+	{"lambda-call-argument-breaks-inner-loop", "", "let f = fn(x: int) -> int { x + 1 }; for k in 0..2 { acc = f({ if k == 1 { break; } k }) % 5; }", false},
+	{"nested-lambda-calls", "", "let f = fn(x: int) -> int { x + 1 }; let g = fn(x: int) -> int { x * 2 }; acc = f(g(f(i))) % 5;", false},
+	{"lambda-throws-inside", "", "let f = fn(x: int) -> int { if x % 2 == 1 { throw(\"in\"); } x }; try { acc = f(i) % 5; } catch e { acc += 1; }", false},
 	{"short-circuit", "", "if i > 1 && i % 2 == 0 || i == 0 { acc += 1; }", false},
 	{"assign-compound", "", "acc += 1; acc -= 1; acc *= 1;", false},
 	{"index-assign", "", "let l = [1, 2]; l[0] = i; l[1] += 1;", false},
